@@ -5,8 +5,8 @@ META = dict(
                 "whose every cell is an unconstrained symbol (= whatever any earlier call history left there); as bytes and as runes; with "
                 "and without position tracking. The solver must prove the two results identical.",
     functions=["algo.FuzzyMatchV2", "algo.FuzzyMatchV1", "algo.exactMatchNaive", "algo.PrefixMatch", "algo.SuffixMatch", "algo.EqualMatch",
-               "algo.alloc16", "algo.alloc32", "util.MakeSlab", "util.ToChars", "util.RunesToChars"],
-    outside=["worker/partition assignment and goroutines (argued from slab independence)", "lines longer than the bounds"],
+               "algo.alloc16", "algo.alloc32", "util.MakeSlab", "util.ToChars", "util.RunesToChars", "fzf.(*Pattern).MatchItem / Match (frame condition: the shared Pattern is not written)"],
+    outside=["worker/partition assignment and goroutines themselves (argued from slab independence plus the frame condition that the shared Pattern is only read while matching)", "lines longer than the bounds"],
     models=["internal/bytealg.IndexByte model", "unicode.* lifted over finite domains"],
     assumptions=["Algo preconditions on the pattern", "H5.pos asserts the documented approximate Start for FuzzyMatchV2 without positions"],
 )
@@ -44,4 +44,9 @@ def suites(tier):
     for cfg in product(kind=[0, 1, 2, 3, 4, 5, 6], cs=[0], fwd=[0, 1]):
         cfg.update(norm=0, rep=0, pk=0, scheme=0, nmin=0, nmax=nmax, mmin=1, mmax=mmax)
         jobs.append(dict(id=jid("pos", cfg), func="zzH_C05_pos", cfg=cfg))
-    return [dict(ALGO, name="algo", jobs=jobs)]
+    # the Pattern shared by all workers is only read while matching (frame condition)
+    sjobs = []
+    for cfg in product(extended=[0, 1], nth=[0, 1]):
+        cfg.update(sets=1 if tier == "quick" else 2, alts=1, len=1, nmax=1 if tier == "quick" else 2)
+        sjobs.append(dict(id=jid("shared", cfg), func="zzH_C05_shared", cfg=cfg))
+    return [dict(ALGO, name="algo", jobs=jobs), src_suite("src", sjobs)]
